@@ -106,6 +106,7 @@ type Op struct {
 	ImportOrder  []int     `json:"import_order,omitempty"`  // import exactly the logs with these ids, in this order
 	ImportRehash bool      `json:"import_rehash,omitempty"` // ... with hashes recomputed so that they chain in stream order
 	ImportSubst  [2]string `json:"import_subst,omitempty"`  // replace the first occurrence of [0] by [1] in the stream, then rehash
+	ImportMutate uint64    `json:"import_mutate,omitempty"` // damage the stream (mutateStream) with choices drawn from this value
 	Raw          *Request  `json:"raw,omitempty"`
 	Capture      string    `json:"capture,omitempty"` // raw admin requests: remember data.id under this name ("reset": mark a reset)
 	SleepMs      int       `json:"sleep_ms,omitempty"`
@@ -365,6 +366,9 @@ func (o *Op) Render(exports map[string]string) Request {
 		r.Body = filterExport(exports[o.From], o.ImportFrom, o.ImportTo)
 		if o.ImportSubst[0] != "" {
 			r.Body = rehashExport(strings.Replace(r.Body, o.ImportSubst[0], o.ImportSubst[1], 1))
+		}
+		if o.ImportMutate != 0 {
+			r.Body = mutateStream(NewRNG(o.ImportMutate), r.Body)
 		}
 		if len(o.ImportOrder) > 0 {
 			r.Body = permuteExport(exports[o.From], o.ImportOrder)
